@@ -51,7 +51,7 @@ LAT = [0, "y", 0.25, 0.5, 0.5, 1, 1, 2]
 
 def plan(tier, seed):
     n = 16 if tier == "quick" else 64
-    per = 500 if tier == "quick" else 3500
+    per = 500 if tier == "quick" else 1300
     return [{"seed": seed * 1000 + i, "n": per, "deep": tier != "quick"} for i in range(n)]
 
 
